@@ -476,6 +476,22 @@ func (e *kvElection) becomeLeader(token string, rev uint64) {
 	}
 }
 
+// observeLeader records what a follower has learned about the current record.
+// It never overwrites the state of an instance that leads: the leader's
+// revision is what its next heartbeat is checked against, and a stale read by
+// a leftover acquisition attempt or a late watch event would make that
+// heartbeat fail. The check and the stores happen under the mutex that
+// becomeLeader holds.
+func (e *kvElection) observeLeader(id string, rev uint64) {
+	e.mu.Lock()
+	defer e.mu.Unlock()
+	if e.isLeader.Load() {
+		return
+	}
+	e.leaderID.Store(id)
+	e.revision.Store(rev)
+}
+
 func (e *kvElection) attemptPriorityTakeover(payloadBytes []byte) error {
 	if e.isStopped() {
 		return ErrAlreadyStopped
@@ -496,8 +512,7 @@ func (e *kvElection) attemptPriorityTakeover(payloadBytes []byte) error {
 	}
 
 	if e.cfg.Priority <= currentPayload.Priority {
-		e.leaderID.Store(currentPayload.ID)
-		e.revision.Store(entry.Revision())
+		e.observeLeader(currentPayload.ID, entry.Revision())
 		return fmt.Errorf("current leader has equal or higher priority: %d >= %d", currentPayload.Priority, e.cfg.Priority)
 	}
 
